@@ -8,8 +8,11 @@ Local Open Scope Z_scope.
 
 (* observed: events of initialize()/run() before the first operation, then per operation the events of the
    step: the ones issued on the path goroutine in order (callbacks, Close() calls, log lines), then the
-   answers found on the Res channels after the step *)
-Inductive pcase := PCase (cf : pconf) (init_obs : list pevent) (steps : list (pop * list pevent)).
+   answers found on the Res channels after the step; and, after initialize() and after every operation,
+   which sub-stream is the current one of the path's stream (pa.stream.subStream, identified by the driver:
+   offline / the one handed to publisher p / the static source's / none) *)
+Inductive pcase :=
+  PCase (cf : pconf) (init_obs : list pevent) (init_sub : sub) (steps : list (pop * list pevent * sub)).
 
 (* ---- event equality / canonical form ------------------------------------------------------- *)
 Definition hk_code (k : hk) : Z := match k with HAvail => 0 | HOnline => 1 | HDemand => 2 end.
@@ -68,19 +71,30 @@ Definition canon (l : list pevent) : list pevent :=
   sort_runs [] (filter (fun e => negb (is_answer e)) vis)
   ++ fold_right insert_ans [] (filter is_answer vis).
 
-Fixpoint run_cmp (s : pstate) (steps : list (pop * list pevent)) : bool :=
+Definition sub_eqb (a b : sub) : bool :=
+  match a, b with
+  | SNone, SNone | SOffline, SOffline | SStatic, SStatic => true
+  | SPub p, SPub p' => p =? p'
+  | _, _ => false
+  end.
+
+Fixpoint run_cmp (s : pstate) (steps : list (pop * list pevent * sub)) : bool :=
   match steps with
   | [] => true
-  | (o, obs) :: r =>
+  | (o, obs, osub) :: r =>
       let (s1, evs) := step s o in
-      evs_eqb (canon evs) (canon obs) && run_cmp s1 r
+      evs_eqb (canon evs) (canon obs) && sub_eqb (s_sub s1) osub && run_cmp s1 r
   end.
 
 Definition mismatch (c : pcase) : bool :=
   match c with
-  | PCase cf i steps =>
-      negb (evs_eqb (canon (init_events cf)) (canon i) && run_cmp (init_state cf) steps)
+  | PCase cf i isub steps =>
+      negb (evs_eqb (canon (init_events cf)) (canon i) && sub_eqb (s_sub (init_state cf)) isub
+            && run_cmp (init_state cf) steps)
   end.
+
+(* the steps without the sub-stream observation *)
+Definition evsteps (steps : list (pop * list pevent * sub)) : list (pop * list pevent) := map fst steps.
 
 (* ---- helpers for the specifications ---------------------------------------------------------- *)
 Definition memz (x : Z) (l : list Z) : bool := existsb (Z.eqb x) l.
@@ -103,7 +117,7 @@ Fixpoint find_answer (q : Z) (l : list pevent) : option ans :=
 Fixpoint lookup (q : Z) (m : list (Z * Z)) : option Z :=
   match m with [] => None | (k, v) :: r => if q =? k then Some v else lookup q r end.
 Definition all_events (c : pcase) : list pevent :=
-  match c with PCase _ i steps => i ++ flat_map snd steps end.
+  match c with PCase _ i _ steps => i ++ flat_map snd (evsteps steps) end.
 Definition ends_closed (steps : list (pop * list pevent)) : bool :=
   existsb (fun x => match fst x with Close => true | _ => false end) steps.
 
@@ -114,7 +128,8 @@ Definition guard (b : bool) : option unit := if b then Some tt else None.
 Notation "'check' b 'then' k" := (if b then k else None) (at level 200, b at level 0, k at level 200).
 
 (* ============================================================================================ *)
-(* C16: at most one publisher; reject when busy; override closes the old one first               *)
+(* C16: at most one publisher; reject when busy; override closes the old one first; the current sub-stream
+   is the attached publisher's (never a replaced or removed publisher's)                           *)
 Record st16 := { cur16 : option Z; up16 : bool; gens16 : list Z }.
 
 Definition gens_of (l : list pevent) : list Z :=
@@ -134,31 +149,39 @@ Definition step16 (cf : pconf) (closed : bool) (s : st16) (x : pop * list pevent
   let s1 := {| cur16 := cur16 s; up16 := up_after (up16 s) evs; gens16 := gs ++ gens16 s |} in
   (* a publisher is closed by the path only if it is the attached one *)
   check (forallb (fun p => match cur16 s with Some c => p =? c | None => false end) (pub_closes evs)) then
+  (* ... and a publisher the path has closed is not attached any more *)
+  let old_closed := 0 <? Z.of_nat (length (pub_closes evs)) in
+  let cur1 := if old_closed then None else cur16 s in
   match o with
-  | AddPublisher q p =>
+  | AddPublisher q p _ =>
       match find_answer q evs with
       | None => None
-      | Some (AErr _) =>
-          (* a rejected publisher changes nothing *)
-          check (negb (existsb (fun e => is_path_ready e || is_path_not_ready e) evs) && negb (0 <? Z.of_nat (length (pub_closes evs)))) then
-          Some s1
+      | Some (AErr code) =>
+          (* a rejected publisher changes nothing; the one exception is an overriding publisher whose tracks an
+             alwaysAvailable stream refuses: the old publisher has been closed (and is detached) *)
+          check (negb (existsb (fun e => is_path_ready e || is_path_not_ready e) evs)) then
+          check (negb old_closed || ((code =? E_INCOMPAT) && c_aa cf && c_override cf)) then
+          Some {| cur16 := cur1; up16 := up16 s1; gens16 := gens16 s1 |}
       | Some (AStream g) =>
           check (negb closed) then
           check (match cur16 s with
                  | None => true
                  | Some old =>
-                     c_override cf
-                     && before (ev_eqb (EPubClosed old)) is_path_ready evs
-                     && before is_path_not_ready is_path_ready evs
+                     c_override cf && old_closed
+                     && (c_aa cf
+                         || (before (ev_eqb (EPubClosed old)) is_path_ready evs
+                             && before is_path_not_ready is_path_ready evs))
                  end) then
-          (* the new publisher gets a stream created in this very step *)
-          check (match gs with [g'] => g =? g' | _ => false end) then
+          (* the new publisher gets a stream created in this very step; on an alwaysAvailable path, the one
+             stream of the path *)
+          check (if c_aa cf then match gs with [] => memz g (gens16 s) | _ => false end
+                 else match gs with [g'] => g =? g' | _ => false end) then
           Some {| cur16 := Some p; up16 := up16 s1; gens16 := gens16 s1 |}
       end
   | RemovePublisher p =>
       match cur16 s with
       | Some c => if c =? p
-                  then check (has_ev EPathNotReady evs) then Some {| cur16 := None; up16 := up16 s1; gens16 := gens16 s1 |}
+                  then check (c_aa cf || has_ev EPathNotReady evs) then Some {| cur16 := None; up16 := up16 s1; gens16 := gens16 s1 |}
                   else Some s1
       | None => Some s1
       end
@@ -166,25 +189,41 @@ Definition step16 (cf : pconf) (closed : bool) (s : st16) (x : pop * list pevent
   | _ => Some s1
   end.
 
-(* after every step of a publisher path: a stream exists iff a publisher is attached *)
-Definition step16' (cf : pconf) (acc : st16 * bool) (x : pop * list pevent) : option (st16 * bool) :=
+(* the current sub-stream after the step: the attached publisher's one and no other publisher's; the offline
+   one only on an alwaysAvailable path without publisher; none exactly when there is no stream *)
+Definition sub_ok16 (cf : pconf) (s : st16) (osub : sub) : bool :=
+  match osub with
+  | SNone => negb (up16 s)
+  | SOffline => up16 s && c_aa cf && negb (match cur16 s with Some _ => true | None => false end)
+  | SPub p => up16 s && match cur16 s with Some c => p =? c | None => false end
+  | SStatic => up16 s && c_static cf
+  end
+  && match cur16 s with Some c => sub_eqb osub (SPub c) | None => true end.
+
+(* after every step of a publisher path: a stream exists iff a publisher is attached; an alwaysAvailable
+   path has its stream from creation to Close *)
+Definition step16' (cf : pconf) (acc : st16 * bool) (x : pop * list pevent * sub) : option (st16 * bool) :=
   let '(s, closed) := acc in
-  match step16 cf closed s x with
+  match step16 cf closed s (fst x) with
   | None => None
   | Some s' =>
-      let closed' := closed || match fst x with Close => true | _ => false end in
-      check (c_static cf || Bool.eqb (up16 s') (match cur16 s' with Some _ => true | None => false end)) then
+      let closed' := closed || match fst (fst x) with Close => true | _ => false end in
+      check (c_static cf || c_aa cf || Bool.eqb (up16 s') (match cur16 s' with Some _ => true | None => false end)) then
+      check (negb (c_aa cf) || Bool.eqb (up16 s') (negb closed')) then
       check (negb closed' || negb (up16 s')) then
+      check (sub_ok16 cf s' (snd x)) then
       Some (s', closed')
   end.
 
 Definition spec_fail_c16 (c : pcase) : bool :=
   match c with
-  | PCase cf i steps =>
-      match mrun (step16' cf) ({| cur16 := None; up16 := false; gens16 := [] |}, false) steps with
-      | Some _ => false
-      | None => true
-      end
+  | PCase cf i isub steps =>
+      let s0 := {| cur16 := None; up16 := up_after false i; gens16 := gens_of i |} in
+      negb (fresh_all [] (gens_of i) && Bool.eqb (up16 s0) (c_aa cf) && sub_ok16 cf s0 isub)
+      || match mrun (step16' cf) (s0, false) steps with
+         | Some _ => false
+         | None => true
+         end
   end.
 
 (* ============================================================================================ *)
@@ -237,8 +276,9 @@ Definition step18 (cf : pconf) (s : st18) (x : pop * list pevent) : option st18 
 
 Definition spec_fail_c18 (c : pcase) : bool :=
   match c with
-  | PCase cf i steps =>
-      match mrun (step18 cf) {| att18 := []; qmap18 := []; up18 := false |} steps with
+  | PCase cf i _ steps0 =>
+      let steps := evsteps steps0 in
+      match mrun (step18 cf) {| att18 := []; qmap18 := []; up18 := up_after false i |} steps with
       | Some s => ends_closed steps && negb (match att18 s with [] => true | _ => false end)
       | None => true
       end
@@ -249,7 +289,7 @@ Definition spec_fail_c18 (c : pcase) : bool :=
 Record st19 := { issued19 : list Z; answered19 : list Z; demand19 : bool; closed19 : bool }.
 
 Definition op_req (o : pop) : option Z :=
-  match o with Describe q | AddPublisher q _ | AddReader q _ | StaticReady q => Some q | _ => None end.
+  match o with Describe q | AddPublisher q _ _ | AddReader q _ | StaticReady q => Some q | _ => None end.
 Definition ready_timer_of (cf : pconf) : timer := if od_static cf then TSSReady else TPubReady.
 Definition timer_eqb (a b : timer) : bool := timer_code a =? timer_code b.
 Definition outstanding (s : st19) : list Z := filter (fun q => negb (memz q (answered19 s))) (issued19 s).
@@ -309,7 +349,8 @@ Definition step19 (cf : pconf) (s : st19) (x : pop * list pevent) : option st19 
 
 Definition spec_fail_c19 (c : pcase) : bool :=
   match c with
-  | PCase cf i steps =>
+  | PCase cf i _ steps0 =>
+      let steps := evsteps steps0 in
       let d0 := has_ev ESrcStart i in
       match mrun (step19 cf) {| issued19 := []; answered19 := []; demand19 := d0; closed19 := false |} steps with
       | Some _ => false
@@ -336,7 +377,8 @@ Definition ev_step20 (cf : pconf) (k : hk) (st : Z) (e : pevent) : option Z :=
 
 Definition spec_fail_c20 (c : pcase) : bool :=
   match c with
-  | PCase cf i steps =>
+  | PCase cf i _ steps0 =>
+      let steps := evsteps steps0 in
       let evs := all_events c in
       negb (forallb (fun k => match mrun (ev_step20 cf k) 0 evs with
                               | Some st => negb (ends_closed steps) || (st =? 0)
